@@ -72,6 +72,15 @@ def specStep (op : Op) (v : View) : View × Err :=
     match v.sections[sec]? with
     | none => (v, .invalidSection)
     | some sc => ({ v with sections := v.sections.set sec { sc with data := sc.data ++ List.replicate n 0x90 } }, .ok)
+  | .inst sec k =>
+    match v.sections[sec]? with
+    | none => (v, .invalidSection)
+    | some sc => ({ v with sections := v.sections.set sec { sc with data := sc.data ++ instBytes k } }, .ok)
+  | .jmpf sec =>
+    match v.sections[sec]? with
+    | none => (v, .invalidSection)
+    | some sc => ({ v with sections := v.sections.set sec { sc with data := sc.data ++ [0xE9, 0, 0, 0, 0] },
+                           fixups := v.fixups + 1 }, .ok)
   | .vappend x => ({ v with vec := v.vec ++ [x] }, .ok)
   | .vreserve _ => (v, .ok)
   | .sappend n ch => ({ v with str := v.str ++ List.replicate n ch }, .ok)
